@@ -1177,7 +1177,20 @@ func famImportNames(t *tgen) {
 		imp = t.pick("al", pname) + " " + imp
 	}
 	var sb strings.Builder
-	sb.WriteString(header(t, imp))
+	imps := []string{imp}
+	if !dot && !strings.Contains(imp, " ") && t.ch(0.4) {
+		// a blank import of another package that declares the same name: when the last element of the first path is
+		// not its package name (go-foo declares foo), the clash shows only once the package names are known
+		twin := fmt.Sprintf("_ \"exp/%s/x/%s\"", t.name, pname)
+		if t.ch(0.5) {
+			imps = append(imps, twin)
+		} else {
+			imps = []string{twin, imp}
+		}
+		t.files[t.name+"/x/"+pname+"/twin.go"] = fmt.Sprintf("package %s\n\nvar Twin = 1\n", pname)
+		t.feat("blank-import-of-a-same-named-package")
+	}
+	sb.WriteString(header(t, imps...))
 	ref := pname
 	if strings.Contains(imp, " ") {
 		ref = strings.Split(imp, " ")[0]
